@@ -96,7 +96,14 @@ EFFECTS = [
          calls={"_check_keepalive": dict(clobbers="*"),
                 "_sock_close": dict(clobbers=["_sock"]),
                 "_do_on_disconnect": dict(clobbers="*", kwargs=["packet_from_broker", "v1_rc"])}),
+    dict(file="FnLoopRc", src="client.py", qual="Client._loop_rc_handle", name="loopRcHandle", params=[("rc", "Int")], ret="Int",
+         attrs=[("_sock", "Ref"), ("_state", "Int")], clock="now",
+         calls={"_sock_close": dict(clobbers=["_sock"]),
+                "_do_on_disconnect": dict(clobbers="*", kwargs=["packet_from_broker", "v1_rc"])}),
 ]
+# generated files whose definitions live in a namespace of their own (their module constants would otherwise clash with those
+# of another generated file imported by the same proof)
+NS = {"FnLoopRc": ".LoopRc"}
 EXC = {"ValueError": ".valueError", "TypeError": ".typeError", "AssertionError": ".assertionError", "IndexError": ".indexError", "MQTTException": ".mqttException", "RuntimeError": ".runtimeError"}
 RESERVED = {"bytes": "bytes_", "end": "end_", "from": "from_", "at": "at_", "open": "open_"}
 
@@ -730,6 +737,14 @@ class EffTr(Tr):
     def is_call(self, v):
         return isinstance(v, ast.Call) and self.is_self_attr(v.func) and v.func.attr in self.cfg["calls"]
 
+    def test(self, e):
+        v, t = self.expr(e)
+        if t == "Int":
+            return f"({v} != 0)"            # truthiness of an int (an MQTTErrorCode)
+        if t != "Bool":
+            raise Missing("non-Bool test")
+        return v
+
     def stmts(self, body, ind, ctl):
         out = []
         pad = "  " * ind
@@ -808,13 +823,14 @@ class EffTr(Tr):
         body = self.stmts(fn.body, 1, None)
         ps = [f"(self_{a.lstrip('_')} : {t})" for a, t in cfg["attrs"]] + [f"(self_{v} : Bool)" for v in cfg.get("none_tests", {}).values()] \
             + [f"({cfg['clock']} : Int)"] + [f"({c['raises']} : Bool)" for c in cfg["calls"].values() if c.get("raises")] \
-            + [f"({n} : {t})" for n, t in self.extra]
+            + [f"({lname(n)} : {t})" for n, t in cfg["params"]] + [f"({n} : {t})" for n, t in self.extra]
         where = f"{cfg['src']} {cfg['qual']} (line {fn.lineno})"
         rt = "(Int × List Py.MEff)" if cfg.get("ret") else "(List Py.MEff)"
         L = [f"/-- {where}: " + ("its result and " if cfg.get("ret") else "") + "the calls and attribute assignments it makes, in execution order"
              + ("; parameters `self_<attr>_<k>`: the attribute's value after the k-th unconditional call" if self.extra else "") + " -/",
              f"def {cfg['name']} {' '.join(ps)} : Except Exc {rt} := do",
              "  let mut effs : List Py.MEff := []"]
+        L += [f"  let mut {lname(n)} := {lname(n)}" for n, _ in cfg["params"]]
         L += body
         if cfg.get("ret"):
             if not (fn.body and isinstance(fn.body[-1], ast.Return)):
@@ -931,6 +947,6 @@ def run(out):
             out.report["missing"].append({"name": "fn:" + cfg["name"], "why": f"cannot parse: {e}", "file": f})
     return {f: ("-- GENERATED by /verif/py/py2lean.py from the working tree of /repo. Do not edit.\n"
                 + ("import Paho.Model.PyHelpers\n" if f == "FnHelpers" else "import Paho.Model.Py\n") +
-                "namespace Paho.Gen.Fn\nopen Paho Paho.Py\n\n"
+                "namespace Paho.Gen.Fn" + NS.get(f, "") + "\nopen Paho Paho.Py\n\n"
                 + "".join(f"/-- module-level constant `{n}` of the live module -/\ndef c_{n} : Int := {v}\n\n" for n, v in sorted(consts.get(f, {}).items()))
-                + "\n\n".join(t) + "\n\nend Paho.Gen.Fn\n") for f, t in texts.items()}
+                + "\n\n".join(t) + "\n\nend Paho.Gen.Fn" + NS.get(f, "") + "\n") for f, t in texts.items()}
